@@ -75,6 +75,10 @@ def mk(subset, ending, meddle=False):
     elif ending == 'stop':
         opts += ['-x']
         tests += [{'layer': 0, 'body': 'fail'}, {'layer': 0}]
+    if meddle:
+        # a second layer after the meddling test: whatever a feature does when a layer starts happens in the changed state
+        world['layers'].append({'name': 'Lb', 'bases': [], 'kind': 'instance', 'hooks': {'setUp': ['ok'], 'tearDown': ['ok']}})
+        tests += [{'layer': 1}, {'layer': 1}]
     if world.get('redirect_last'):
         tests.append({'layer': 0, 'subs': ['fail'], 'redirect_sub': True})
     world['tests'] = tests
